@@ -374,6 +374,69 @@ def forms():
     return out
 
 
+# ---------------------------------------------------------------- file-path family (non-ASCII text)
+
+# `xonsh format FILE` works on BYTES on disk while format_source works on characters: every source
+# PRE + BODY + POST with 2-, 3- and 4-byte characters in identifiers, strings, comments and
+# command words, before and after the place that gets reformatted; bodies that grow, shrink, keep
+# their length or stay unchanged.  Each goes through the real CLI in --check, --diff, in-place and
+# in-place-again mode (see c17._cli_clauses) on top of the usual clauses.
+UNI_LINES = [
+    "\u00e9 = 1",
+    "\u6f22 = 2",
+    "s = '\u00e9'",
+    "s = '\u20ac'",
+    "s = '\U0001f642'",
+    "# \u00e9",
+    "# \u20ac",
+    "# \U0001f642",
+    "echo \u00e9 \u20ac",
+    "t = '''\u00e9\n\U0001f642'''",
+]
+UNI_BODIES = [
+    "x=1",  # grows
+    "x   =   1   ",  # shrinks
+    "x  =1",  # same length
+    "x = 1",  # unchanged
+    "\u00e9=1",
+    "s='\u20ac'   ",
+    "f('\U0001f642',1)",
+    "if a:\n\tb=1\n\n\n\n\n\tc   =   2",
+]
+
+
+def uni_sources():
+    out = []
+    for pre in [""] + UNI_LINES:
+        for body in UNI_BODIES:
+            for post in [""] + UNI_LINES:
+                out.append((pre + "\n" if pre else "") + body + "\n" + (post + "\n" if post else ""))
+    return out
+
+
+# ---------------------------------------------------------------- indentation family
+
+# Every sequence of line indentations of 3..5 lines over the columns 0 2 4 8 and a tab: the space
+# of well-nested AND of inconsistently dedented programs.  A line is a block header (`if a:`) when
+# the next line is deeper, else a plain assignment.  Reference for 'cannot be tokenised': CPython's
+# tokenizer (c17._ref_bad_dedent).
+INDENT_STRS = ["", "  ", "    ", "        ", "\t"]
+_COL = {"": 0, "  ": 2, "    ": 4, "        ": 8, "\t": 8}
+
+
+def indent_sources(thorough):
+    out = []
+    for n in (3, 4, 5):
+        alphabet = INDENT_STRS if (thorough or n <= 4) else INDENT_STRS[:4]
+        for combo in itertools.product(alphabet, repeat=n):
+            lines = []
+            for i, ind in enumerate(combo):
+                deeper_next = i + 1 < n and _COL[combo[i + 1]] > _COL[ind]
+                lines.append(ind + ("if a:" if deeper_next else "x = %d" % i))
+            out.append("\n".join(lines) + "\n")
+    return out
+
+
 # ---------------------------------------------------------------- parsing the notation
 
 
